@@ -701,6 +701,9 @@ class ExprMixin:
         return self.load_index(base, key)
 
     def load_index(self, base, key):
+        if isinstance(key, Const) and isinstance(key.value, bool) and (
+                isinstance(base, Tup) or (isinstance(base, Poly) and base.single_atom() is not None and base.single_atom()[0] == 'sym')):
+            key = Poly.const(int(key.value))        # seq[True] is seq[1], seq[False] is seq[0]
         if isinstance(base, Tup):
             if isinstance(key, Poly) and key.const_value() is not None:
                 i = int(key.const_value())
